@@ -216,6 +216,35 @@ def parse_level_oracle(ctx):
                         ctx.violation("parse-level:%s|%s|%r%s" % (name, keep, inp, "|debug" if dbg else ""),
                                       "%s keep_tabs=%s%s on %r: %s" % (name, keep, " with debug actions set" if dbg else "", inp, bad),
                                       {"kind": "parse-level", "name": name, "keep": keep, "input": inp})
+    # (4) a Located that its container enters WITHOUT pre-parsing (SkipTo's target, AtLineStart / AtStringStart): the wrapped
+    # expression must be matched exactly where the Located was entered, so locn_start..locn_end is the matched text itself
+    for name, mk in exprs:
+        if name in ("alt", "rep", "nested"):
+            continue                # a MatchFirst / repetition root pre-parses late: Located may legitimately start before the blanks
+        containers = [("skipto-include", lambda e: pp.SkipTo(pp.Located(e), include=True), ["12 \t ab 1", "  ab 1", ",,   ab\t1", "12\n\n ab 12", "(( ab"]),
+                      ("atlinestart", lambda e: pp.AtLineStart(pp.Located(e)), ["ab 1", "ab\t12"]),
+                      ("atstringstart", lambda e: pp.AtStringStart(pp.Located(e)), ["ab 1", "ab\t12"]),
+                      ("skipto-then", lambda e: pp.SkipTo(pp.Located(e)) + pp.Located(e), ["12   ab 1", "1\t ab\t1"])]
+        for cname, wrap, cinputs in containers:
+            for keep in (False, True):
+                for inp in cinputs:
+                    g = wrap(mk().copy())
+                    if keep:
+                        g.parse_with_tabs()
+                    parsed = inp if keep else inp.expandtabs()
+                    try:
+                        r = g.parse_string(inp)
+                    except pp.ParseBaseException:
+                        continue
+                    st, en = r["locn_start"], r["locn_end"]
+                    ctx.case("located-noprep|%s|%s|%s|%r" % (name, cname, keep, inp), True, True)
+                    ctx.stat("located_without_preparse_cases")
+                    # (the END may lie behind blanks that an unmatched trailing repetition consumed: only the start is decided here)
+                    if not (0 <= st <= en <= len(parsed)) or parsed[st:st + 1].isspace():
+                        ctx.violation("located-noprep:%s|%s|%s|%r" % (name, cname, keep, inp),
+                                      "%s(Located(%s)) keep_tabs=%s on %r: locn_start..locn_end = %d..%d delimits %r, not the matched text" % (
+                                          cname, name, keep, inp, st, en, parsed[st:en]),
+                                      {"kind": "located-noprep", "name": name, "container": cname, "keep": keep, "input": inp})
     # original_text_for must return the slice between the first and the last matched character also when ignorables are
     # configured on the wrapped expression AFTER it was wrapped (its start marker shares the expression's ignore list)
     nlate = 0
